@@ -8,10 +8,24 @@
 use std::sync::atomic::{AtomicI64, Ordering};
 
 static OFFSET_SECS: AtomicI64 = AtomicI64::new(0);
+static FROZEN: std::sync::atomic::AtomicBool = std::sync::atomic::AtomicBool::new(false);
+
+/// From now on this process never steps its clock (libFuzzer measures its time limits with the
+/// same clock; a stepped clock looks like a unit that ran for days).
+pub fn freeze() {
+    FROZEN.store(true, Ordering::SeqCst);
+    OFFSET_SECS.store(0, Ordering::SeqCst);
+}
+
+pub fn is_frozen() -> bool {
+    FROZEN.load(Ordering::SeqCst)
+}
 
 /// Step the wall clock of this process by `secs` (positive = forward).
 pub fn step(secs: i64) {
-    OFFSET_SECS.fetch_add(secs, Ordering::SeqCst);
+    if !is_frozen() {
+        OFFSET_SECS.fetch_add(secs, Ordering::SeqCst);
+    }
 }
 
 /// Back to the real time.
